@@ -51,7 +51,7 @@ func (s *syn) typ(label string) {
 }
 
 func (s *syn) str(label string) string {
-	return rapid.SampledFrom([]string{`"A"`, `""`, `"a b"`, `"x\"y"`, `"CRC32"`, `"// no"`, `"é日"`, `"a\\"`, `"%d%%"`}).Draw(s.t, label)
+	return rapid.SampledFrom([]string{`"A"`, `""`, `"a b"`, `"x\"y"`, `"CRC32"`, `"// no"`, `"é日"`, `"a\\"`, `"%d%%"`, "\"t\tab\""}).Draw(s.t, label)
 }
 
 func (s *syn) docOpt(label string) {
@@ -59,7 +59,7 @@ func (s *syn) docOpt(label string) {
 		return
 	}
 	if s.pick(label+"_hd", 3) == 0 {
-		docs := []string{"`d`", "``", "`消息`", "`// c`", "`a , b`", "` lead`", "`50% of %v`"}
+		docs := []string{"`d`", "``", "`消息`", "`// c`", "`a , b`", "` lead`", "`50% of %v`", "`tab\tinside`"}
 		if !s.cfg.avoid("doc:multiline") {
 			docs = append(docs, "`two\nlines`")
 		}
@@ -120,7 +120,7 @@ func (s *syn) matchDecl(label string) {
 		}
 		if s.pick(l+"_kk", 3) == 0 {
 			s.r.emit("[")
-			nk := rapid.SampledFrom([]int{1, 2, 3, 5, 6, 7, 11}).Draw(s.t, l+"_nk")
+			nk := rapid.SampledFrom([]int{1, 2, 3, 5, 6, 7, 10, 11, 15}).Draw(s.t, l+"_nk")
 			for j := 0; j < nk; j++ {
 				if j > 0 {
 					s.r.emit(",")
@@ -339,7 +339,7 @@ const (
 	AnywhereComments             // at every token boundary
 )
 
-var commentBodies = []string{" c", "", " packet X {", "// double", " `tick` \"q\"", " 注释", " trailing  spaces  ", " @leftPad('0')", " 100% sure %s %d", " c", " reserved", " reserved"}
+var commentBodies = []string{" c", "", " packet X {", "// double", " `tick` \"q\"", " 注释", " trailing  spaces  ", " @leftPad('0')", " 100% sure %s %d", " c", " reserved", " reserved", " tab\there", "\tlead tab"}
 
 // Decorate attaches comments to tokens. Returns the number of comments placed.
 func Decorate(t *rapid.T, toks []Tok, mode CommentMode, label string, allowed func(siteClass string) bool) []string {
